@@ -25,7 +25,7 @@ open Matrix
 
 namespace IrisVerif.C15
 set_option linter.unusedSectionVars false
-open IrisVerif.Acov (homogeneous_iterate cmat_get_ofFn)
+open IrisVerif.Acov (homogeneous_iterate cmat_get_ofFn qget_ofFn)
 
 /-! ## Part 1 -/
 
@@ -408,6 +408,67 @@ theorem applyKind_frame (fuw : Rat × Rat) (f : Rat) :
     (applyKind fuw .transition f).2 = fuw.2 ∧ (applyKind fuw .measurement f).1 = fuw.1 ∧
     (applyKind fuw .transition f).1 = fuw.1 * f ∧ (applyKind fuw .measurement f).2 = fuw.2 * f := by
   simp [applyKind]
+
+/-! ### the object: selection of the current-dated rows, std changes between observations -/
+
+/-- **The selected rows are exactly the zero-shift tokens, in vector order**: a position is selected iff it is a position
+of the joint token vector whose shift is 0, and the selection is strictly increasing (no position twice, order kept) —
+whatever the maximum lag is and whether or not there are measurement variables -/
+theorem zeroShiftSel_spec (shifts : List Int) :
+    (∀ i, i ∈ zeroShiftSel shifts ↔ (i < shifts.length ∧ shifts.getD i 1 = 0)) ∧
+    (zeroShiftSel shifts).Pairwise (· < ·) := by
+  unfold zeroShiftSel
+  constructor
+  · intro i
+    simp [List.mem_filter, List.mem_range]
+  · exact List.Pairwise.filter _ List.pairwise_lt_range
+
+/-- the invariant carried through a call history: same solution, std blocks scaled by the squares of the cumulative factors -/
+def StdInv (s0 s : Sol) (acc : Rat × Rat) : Prop :=
+  s.na = s0.na ∧ s.ny = s0.ny ∧ s.nu = s0.nu ∧ s.Ta = s0.Ta ∧ s.Pa = s0.Pa ∧ s.Za = s0.Za ∧ s.Ua = s0.Ua ∧ s.H = s0.H ∧
+  s.tol = s0.tol ∧
+  s.covU.rows = s0.covU.rows ∧ s.covU.cols = s0.covU.cols ∧ s.covW.rows = s0.covW.rows ∧ s.covW.cols = s0.covW.cols ∧
+  (∀ i j, i < s0.covU.rows → j < s0.covU.cols → s.covU.get i j = acc.1 * acc.1 * s0.covU.get i j) ∧
+  (∀ i j, i < s0.covW.rows → j < s0.covW.cols → s.covW.get i j = acc.2 * acc.2 * s0.covW.get i j)
+
+theorem stepStd_inv (s0 s : Sol) (acc : Rat × Rat) (c : StdKind × Rat) (h : StdInv s0 s acc) :
+    StdInv s0 (stepStd s c) (applyKind acc c.1 c.2) := by
+  obtain ⟨h1, h2, h3, h4, h5, h6, h7, h8, h9, r1, r2, r3, r4, hu, hw⟩ := h
+  rcases c with ⟨k, f⟩
+  cases k <;> simp only [stepStd, applyKind] <;>
+    refine ⟨h1, h2, h3, h4, h5, h6, h7, h8, h9, ?_, ?_, ?_, ?_, ?_, ?_⟩ <;>
+    first
+      | exact r1 | exact r2 | exact r3 | exact r4 | exact hu | exact hw
+      | (intro i j hi hj
+         simp only [QMat.smul]
+         rw [qget_ofFn]
+         first
+           | (rw [if_pos ⟨by rw [r1]; exact hi, by rw [r2]; exact hj⟩, hu i j hi hj]; ring)
+           | (rw [if_pos ⟨by rw [r3]; exact hi, by rw [r4]; exact hj⟩, hw i j hi hj]; ring))
+
+theorem foldl_stepStd_inv (s0 : Sol) (calls : List (StdKind × Rat)) (s : Sol) (acc : Rat × Rat) (h : StdInv s0 s acc) :
+    StdInv s0 (calls.foldl stepStd s) (calls.foldl (fun a c => applyKind a c.1 c.2) acc) := by
+  induction calls generalizing s acc with
+  | nil => exact h
+  | cons c cs ih => exact ih _ _ (stepStd_inv s0 s acc c h)
+
+/-- **The state machine refines the pure function.** After any history of `rescale_stds(f, kind)` calls — kinds with an
+empty selection included — the solution matrices are those of the solve, and every std² in force is the original times
+the square of the cumulative factor of its own kind; hence the observation `get_acov` (a function of this state only)
+moves exactly with the stds of the kinds that were selected and with nothing else. -/
+theorem runStd_spec (s : Sol) (calls : List (StdKind × Rat)) : StdInv s (runStd s calls) (applyKinds calls) := by
+  unfold runStd applyKinds
+  refine foldl_stepStd_inv s calls s (1, 1) ⟨rfl, rfl, rfl, rfl, rfl, rfl, rfl, rfl, rfl, rfl, rfl, rfl, rfl, ?_, ?_⟩ <;>
+    (intro i j _ _; simp)
+
+/-- frame of a single call: a measurement-kind call never touches the transition stds and vice versa (so with an empty
+measurement block a measurement-kind call changes no cell at all) -/
+theorem stepStd_frame (s : Sol) (f : Rat) :
+    (stepStd s (.measurement, f)).covU = s.covU ∧ (stepStd s (.transition, f)).covW = s.covW := ⟨rfl, rfl⟩
+
+-- non-vacuity: shifts of [x, y, x{-1}, x{-2}, obs] select positions 0, 1, 4 (lag 2 with a measurement variable)
+example : zeroShiftSel [0, 0, -1, -2, 0] = [0, 1, 4] := by decide
+
 
 end Model
 
